@@ -9,14 +9,18 @@
 // of the model's stable successor states.
 //
 // ops:   C bound=<n> q=<n> io=<0|1> cc=<0|1>   taskpool.New(bound, q) / taskpool.NewIO(bound, q, 64); cc=1: with a
-//                                           custom caller (the optional third argument of New)
-//        go t park=<-|inc|undo>            a goroutine calls Go(task t); park: hold that call in the hook
-//        rel t | relr k                    release the parked Go call of task t / of the k-th parked task
-//        fin t p=<0|1> | finr k p=<0|1>    open the gate of running task t / of the k-th running task (p=1: it panics)
-//        stop                              Stop()
-//        par k base                        (pool idle) hand over k gated tasks base..base+k-1 one after the other
+//
+//	                                   custom caller (the optional third argument of New)
+//	go t park=<-|inc|undo>            a goroutine calls Go(task t); park: hold that call in the hook
+//	rel t | relr k                    release the parked Go call of task t / of the k-th parked task
+//	fin t p=<0|1> | finr k p=<0|1>    open the gate of running task t / of the k-th running task (p=1: it panics)
+//	stop                              Stop()
+//	par k base                        (pool idle) hand over k gated tasks base..base+k-1 one after the other
+//
 // exec echoes relr/finr as rel/fin with the task it chose and appends the observation
-//        o=<concurrent>/<len(queue)>/<running>/<finished>/<tasks whose Go has not returned>
+//
+//	o=<concurrent>/<len(queue)>/<running>/<finished>/<tasks whose Go has not returned>
+//
 // which is also the result line.
 //
 // Direct oracles (implementation only):
@@ -144,18 +148,19 @@ func b2i(b bool) int {
 // ---------------------------------------------------------------- executor
 
 type task struct {
-	id       int
-	gate     chan struct{}
-	panics   bool
-	starts   int32
-	ends     int32
-	returned int32 // the Go call returned
-	called   bool
-	preStop  bool // Go was called before Stop
-	retStop  bool // ... and had returned when Stop was called
-	parked   int32
-	release  chan struct{}
-	mode     string
+	id           int
+	gate         chan struct{}
+	panics       bool
+	starts       int32
+	ends         int32
+	returned     int32 // the Go call returned
+	called       bool
+	preStop      bool // Go was called before Stop
+	retStop      bool // ... and had returned when Stop was called
+	queuedAtStop bool // Go had returned and the task had not started when Stop was called (it sat in the queue)
+	parked       int32
+	release      chan struct{}
+	mode         string
 }
 
 type capLogger struct{ n int32 }
@@ -504,6 +509,9 @@ func execStream(e *lp.Exec) {
 			}
 			mode := kv["park"]
 			t := s.newTask(nums[0], mode)
+			if s.stopped {
+				e.Count("stop-outcome", "go-after-stop")
+			}
 			go s.submit(t)
 			o := s.observe()
 			if mode != "inc" && mode != "undo" {
@@ -581,6 +589,26 @@ func execStream(e *lp.Exec) {
 			for _, id := range s.order {
 				t := s.tasks[id]
 				t.retStop = atomic.LoadInt32(&t.returned) == 1
+				t.queuedAtStop = t.retStop && atomic.LoadInt32(&t.starts) == 0
+			}
+			// the Stop dimension (what Stop meets), printed in the evidence distribution
+			{
+				run, _, blk, parked := s.sets()
+				ql := s.p.tp.VerifQueueLen()
+				switch {
+				case ql > 0 && len(blk) > 0:
+					e.Count("stop-meets", "queue-nonempty+go-blocked")
+				case ql > 0:
+					e.Count("stop-meets", "queue-nonempty")
+				case len(blk) > 0 && len(parked) == len(blk):
+					e.Count("stop-meets", "go-parked-in-hook")
+				case len(blk) > 0:
+					e.Count("stop-meets", "go-blocked")
+				case len(run) > 0:
+					e.Count("stop-meets", "tasks-running")
+				default:
+					e.Count("stop-meets", "idle")
+				}
 			}
 			s.p.tp.Stop()
 			o := s.observe()
@@ -667,6 +695,18 @@ func (s *sess) finish(lg *capLogger) {
 			ran++
 			if t.panics {
 				ran += 0
+			}
+		}
+		if s.stopped {
+			switch {
+			case t.queuedAtStop && st >= 1:
+				e.Count("stop-outcome", "queued-at-stop-ran") // the repaired clause (c19_handed_before_stop_runs)
+			case st == 0 && t.preStop && !t.retStop:
+				e.Count("stop-outcome", "racing-go-lost") // Go had not returned at Stop (c19_lost_only_racing_stop)
+			case st == 0 && !t.preStop:
+				e.Count("stop-outcome", "go-after-stop-lost")
+			case st >= 1 && !t.preStop:
+				e.Count("stop-outcome", "go-after-stop-ran")
 			}
 		}
 		if st == 0 && t.preStop {
